@@ -301,7 +301,10 @@ def model_request(case, mode, oracle_for=()):
     eq = case["eq"]
     req = {"mode": mode, "dt": enc(case["dt"]), "t_start": enc(case["t_start"]), "t_end": enc(case["t_end"]),
            "eps": enc(EPS), "u0": enc(case["u0"]), "eq": eq, "trackers": trs}
-    if eq == "time" and TIME_SHIFT[case["solver"]] != 0.0:
+    if case.get("stepper") == "exact":
+        req["stepper"] = "exact"
+        req["fuel"] = 20000
+    if eq == "time" and TIME_SHIFT.get(case["solver"], 0.0) != 0.0:
         req["eq"] = "timeshift"
         req["shift"] = enc(TIME_SHIFT[case["solver"]] * case["dt"])
     return req
@@ -327,11 +330,15 @@ def compare(case, real, model, mode, exact_state=True, close_times=False):
         same = lambda x, s: abs(x - float(dec(s))) <= 1e-10 * scale
         exact_state = False
 
+    state_rtol = 1e-6 if case.get("stepper") == "exact" else 1e-10  # scipy integrates u' = 1 to its own rtol
+    if case.get("stepper") == "exact":
+        exact_state = False
+
     def same_state(x, s):
         if exact_state:
             return same(x, s)
         m = float(dec(s))
-        return abs(x - m) <= 1e-10 * max(1.0, abs(m), abs(x))
+        return abs(x - m) <= state_rtol * max(1.0, abs(m), abs(x))
 
     if real.get("error"):
         return {"what": "real run raised", "impl": real["error"]}
@@ -343,7 +350,7 @@ def compare(case, real, model, mode, exact_state=True, close_times=False):
     for n, (r, m) in enumerate(zip(real["trace"], model["trace"])):
         if r[0] != m[0] or not same(r[1], m[1]) or not same_state(r[2], m[2]):
             return {"what": f"handle call {n}", "impl": list(r), "model": [m[0], float(dec(m[1])), float(dec(m[2]))]}
-    if real["steps"] != model["steps"]:
+    if real["steps"] != model["steps"] and case.get("stepper") != "exact":
         return {"what": "steps", "impl": real["steps"], "model": model["steps"]}
     if not same(real["t_final"], model["t_final"]):
         return {"what": "t_final", "impl": real["t_final"], "model": float(dec(model["t_final"]))}
@@ -663,6 +670,81 @@ def monitor_trackers(case, real):
     else:
         if real["stop_reason"] != "Reached final time" or not real["successful"]:
             bad.append(("run without stop request reaches the final time", real["stop_reason"], "Reached final time"))
+    return bad
+
+
+def monitor_exact(case, real, strict_exact=False):
+    """C08 for steppers that reach their target exactly (ScipySolver, adaptive steppers): calls at strictly
+    increasing action times; a constant schedule is never served late and at most dt/2 early; a single tracker
+    starting at t_start is served exactly at its scheduled times (`strict_exact`: demanded of every tracker,
+    which is what the property text says and what fails when another tracker is due up to dt/2 earlier)"""
+    bad = []
+    dt, t0, t1 = case["dt"], case["t_start"], case["t_end"]
+    rt = 1e-12 * max(abs(t0), abs(t1), dt) if case.get("round_off") else 0.0
+    n_tr = len(case["trackers"])
+    per = [[] for _ in range(n_tr)]
+    action = {t0, t1}
+    for log in real["sched_log"]:
+        action.update(a for _k, _t, a in log)
+    for (i, t, u) in real["trace"]:
+        per[i].append(t)
+        if rt == 0.0 and t not in action:
+            bad.append(("tracker time is an action time (t_start, t_end or a scheduled time)", t, "one of the schedules"))
+        ref = case["u0"] + (t - t0)
+        if case["eq"] == "one" and abs(u - ref) > 1e-6 * max(1.0, abs(ref)):
+            bad.append((f"state seen at t={t} is the state of that time", u, ref))
+    for i, ev in enumerate(per):
+        for a, b in zip(ev, ev[1:]):
+            if not b > a:
+                bad.append((f"tracker {i} called at strictly increasing times", b, f"> {a}"))
+    stopped = bool(real["raised"])
+    for i, tr in enumerate(case["trackers"]):
+        s = tr["sched"]
+        if s["kind"] != "constant" or s["dt"] <= 0:
+            continue
+        D = s["dt"]
+        tau0 = t0 if s.get("t_start") is None else max(t0, s["t_start"])
+        a = tau0
+        for k, t in enumerate(per[i]):
+            if D >= dt:
+                if t > a + rt:
+                    bad.append((f"call {k} of constant tracker {i} is not late", t, a))
+                    break
+                if t < a - dt / 2 - rt:
+                    bad.append((f"call {k} of constant tracker {i} is at most dt/2 early", t, a))
+                    break
+                exact_required = strict_exact or (n_tr == 1 and tau0 == t0)
+                sliver = t == t1 and t1 < a < t1 + EPS * dt
+                if exact_required and abs(t - a) > rt and not sliver:
+                    bad.append((f"call {k} of constant tracker {i} exactly at its scheduled time (adaptive stepper)", t, a))
+                    break
+            a = a + D
+        if D >= dt and not stopped and t1 >= t0:
+            acc, a = [], tau0
+            for _ in range(len(per[i]) + 3):
+                acc.append(a)
+                a = a + D
+            lo = sum(1 for x in acc if x <= t1 - rt)
+            if len(per[i]) < lo:
+                bad.append((f"every scheduled time <= t_end of constant tracker {i} is served", len(per[i]), lo))
+    if real["finalized"] != list(range(n_tr)):
+        bad.append(("every tracker finalised exactly once", real["finalized"], list(range(n_tr))))
+    if stopped:
+        ts = real["raised"][0][2]
+        if real["t_final"] != ts or (real["trace"] and real["trace"][-1][1] != ts):
+            bad.append(("run ends at the time of the stop request", real["t_final"], ts))
+        last = max(real["raised"], key=lambda r: r[0])
+        kind, msg = last[3], last[4]
+        exp_reason = msg if msg else ("Tracker raised FinishedSimulation" if kind == "F" else "Tracker raised StopIteration")
+        if real["stop_reason"] != exp_reason or real["successful"] != (kind == "F"):
+            bad.append(("stop reason of the last raising tracker is reported",
+                        [real["stop_reason"], real["successful"]], [exp_reason, kind == "F"]))
+    elif real["stop_reason"] != "Reached final time":
+        bad.append(("run without stop request reaches the final time", real["stop_reason"], "Reached final time"))
+    elif t1 >= t0 and abs(real["t_final"] - t1) > rt and not (t1 - t0 <= EPS * dt):
+        # an exact stepper ends at t_end itself (or, after a last target within 1e-6*dt of it, just before)
+        if not (t1 - EPS * dt <= real["t_final"] <= t1):
+            bad.append(("exact stepper ends at t_end", real["t_final"], t1))
     return bad
 
 
